@@ -54,7 +54,7 @@ def gen_model(rng):
     for _ in range(rng.randint(2, 5)):
         name, params = rng.choice(DIST_POOL)
         dists.append([name, params, rng.randrange(n_streams)])
-    stats = [{"kind": rng.choice(KINDS), "via": rng.choice(["direct", "event"])}
+    stats = [{"kind": rng.choice(KINDS), "via": rng.choice(["direct", "event", "event2", "event_ctor"])}
              for _ in range(rng.randint(1, 3))]
     n_types = rng.randint(1, 3)
     listeners = []
